@@ -21,6 +21,12 @@ CHECKS = {
          "Trusts dlref (the reference evaluator written from the documentation) and the by-construction well-formedness of dlgen programs; cases outside the defined value domain are discarded and counted.", "4/C01"),
 }
 
+CHECKS.update({
+ "C30": ("exploration", "property-based testing (rapidcheck) over generated transactions x generated thread schedules on the real lock classes under a cooperative scheduler, plus bounded-exhaustive schedule enumeration (stateless DFS, preemption-bounded) of small configurations",
+         "History invariants (single writer, validation soundness, abort transparency, bounded progress, no lost update) hold on every explored interleaving: hundreds of thousands of random schedules and every schedule of 2x1 (unbounded), 2x2 and 3x1 (preemption-bounded) client configurations.",
+         "Interleavings are sequentially consistent at hook granularity (no weak-memory effects); liveness only in bounded form (all-spinning state = violation, budget overrun = inconclusive).", "4/C30"),
+})
+
 def entry(pid):
     cat, tech, text, note, ref = CHECKS[pid]
     return {
